@@ -20,4 +20,6 @@ GroupsInternal  == InternalGapsSmall(E, groups, th)
 GroupsBoundary  == BoundaryGapsLarge(E, groups, th)
 GroupsKramers   == kr => (BoundariesEven(groups) /\ KramersMaximal(E, groups, th))
 InRangeSubset   == \A j \in 1..Len(inrange) : \E k \in 1..Len(groups) : groups[k] = inrange[j]
+(* the closed-interval choice of the code is one of the admissible answers (the binding demands only admissibility) *)
+InRangeRelaxed  == InRangeAdmissible(E, th, kr, emin, emax, {inrange[j] : j \in 1..Len(inrange)})
 =============================================================================
